@@ -163,7 +163,7 @@ def list_binop(op, a, b, t=None):
         or any(isinstance(i, t_seq) for i in b):
             ret = []
             a2 = b2 = t2 = None
-            for i in range(len(a)):
+            for i in range(min(len(a), len(b))):  # Empty if any is empty.
                 if isinstance(a[i], tuple):
                     t2 = tuple
                     a2 = list(a[i])
